@@ -35,6 +35,7 @@ import (
 	"github.com/furiko-io/furiko/pkg/core/validation"
 	"github.com/furiko-io/furiko/pkg/execution/util/cron"
 	"github.com/furiko-io/furiko/pkg/execution/util/jobconfig"
+	"github.com/furiko-io/furiko/pkg/execution/util/parallel"
 	executionlister "github.com/furiko-io/furiko/pkg/generated/listers/execution/v1alpha1"
 	"github.com/furiko-io/furiko/pkg/runtime/controllercontext"
 )
@@ -475,7 +476,49 @@ func (v *Validator) ValidateParallelismSpec(spec *v1alpha1.ParallelismSpec, fldP
 
 	allErrs = append(allErrs, v.ValidateParallelCompletionStrategy(spec.CompletionStrategy, fldPath.Child("completionStrategy"))...)
 
+	// Only expand a spec that is otherwise valid, and ensure that every parallel
+	// index can be told apart from all others.
+	if len(allErrs) == 0 {
+		allErrs = append(allErrs, v.validateParallelIndexes(spec, fldPath)...)
+	}
+
 	return allErrs
+}
+
+// validateParallelIndexes validates that the indexes generated from spec have
+// pairwise distinct hashes. Tasks are named after and grouped by the hash of
+// their parallel index, so two indexes with an equal hash (which includes
+// duplicate keys or duplicate matrix values) would share a single task.
+func (v *Validator) validateParallelIndexes(spec *v1alpha1.ParallelismSpec, fldPath *field.Path) field.ErrorList {
+	allErrs := field.ErrorList{}
+	indexes := parallel.GenerateIndexes(spec)
+	seen := make(map[string]v1alpha1.ParallelIndex, len(indexes))
+	for _, index := range indexes {
+		hash, err := parallel.HashIndex(index)
+		if err != nil {
+			allErrs = append(allErrs, field.InternalError(fldPath, errors.Wrapf(err, "cannot hash parallel index")))
+			return allErrs
+		}
+		if other, ok := seen[hash]; ok {
+			detail := fmt.Sprintf("parallel indexes %v and %v cannot be distinguished (both hash to %v)",
+				formatParallelIndex(other), formatParallelIndex(index), hash)
+			allErrs = append(allErrs, field.Invalid(fldPath, formatParallelIndex(index), detail))
+			return allErrs
+		}
+		seen[hash] = index
+	}
+	return allErrs
+}
+
+func formatParallelIndex(index v1alpha1.ParallelIndex) string {
+	switch {
+	case index.IndexNumber != nil:
+		return fmt.Sprintf("%v", *index.IndexNumber)
+	case index.IndexKey != "":
+		return fmt.Sprintf("%q", index.IndexKey)
+	default:
+		return fmt.Sprintf("%v", index.MatrixValues)
+	}
 }
 
 func (v *Validator) validateParallelismSpecWithMatrix(
@@ -488,6 +531,9 @@ func (v *Validator) validateParallelismSpecWithMatrix(
 			detail := fmt.Sprintf("withMatrix key must match regexp: %v", withMatrixKeyRegexp)
 			allErrs = append(allErrs, field.Invalid(fldPath, key, detail))
 			continue
+		}
+		if len(vals) == 0 {
+			allErrs = append(allErrs, field.Required(fldPath.Key(key), "must specify at least one value"))
 		}
 		for _, val := range vals {
 			if len(val) == 0 {
